@@ -16,7 +16,7 @@ ASSUMPTIONS = [
     "values compared within the C01 rounding bound (both sides come from the library)",
 ]
 OPS = ops.TRANSFORMABLE + ["apply"]
-N_CASES = {"quick": 900, "thorough": 22000}
+N_CASES = {"quick": 900, "thorough": 8000}
 ops.KIND.setdefault("apply", "red")
 FUNCS = {"np.max": np.max, "np.sum": np.sum, "len": len, "np.mean": np.mean}
 
